@@ -55,6 +55,19 @@ def run(ctx):
         lines.append(l)
         classes.append("with-all-zero")
         nt.append(True)
+    # systematic small scripts: P, its class twin, -P and decodings of both, in normalised and rescaled form
+    # (same X and Z with opposite Y, same Y with opposite X, ...); the commitment to the zero vector and other
+    # ways to obtain the identity; every pair is compared through the Equal matrix and the Bytes list
+    pts = gsgen.pool_points(rng, 10)
+    for P0 in pts[:4] + [rng.choice(pts[4:]) for _ in range(ctx.n(6, 100))]:
+        for l0 in (1, rng.randrange(2, E.P)):
+            toks = ["raw:" + E.tok(P0, l=l0), "raw:" + E.tok(P0, l=l0, flip=True), "raw:" + E.tok(E.neg(P0), l=l0),
+                    "raw:" + E.tok(E.neg(P0), l=l0, flip=True), "neg:0", "dec:" + E.hx(E.compress(P0)),
+                    "dec:" + E.hx(E.compress(E.neg(P0))), "norm:0", "norm:2", "sub:0:0", "id", "msmp:%d=0" % rng.randrange(256),
+                    "msmp:0=0,255=0", "add:0:2", "smul:0:0"]
+            lines.append("gs " + " ".join(toks))
+            classes.append("twins-and-identities")
+            nt.append(True)
     norm = lambda o: gsgen.project(o, KEEP)
     impl, _ = diff(ctx, lines, "group script (Bytes/Equal/decode)", classes, nt, norm=norm)
     check_pred(ctx, lines, impl)
